@@ -305,9 +305,159 @@ type AddrTaken struct {
 func (t *AddrTaken) Pos() token.Pos { return t.X.Pos() }
 func (t *AddrTaken) End() token.Pos { return t.X.End() }
 
-// SingleDef returns the unique defining expression of a local identifier,
-// following chains of single-definition locals; ok=false when the variable
-// is a parameter, has several definitions, or is not a local.
+// defSite is one assignment to a local variable with its statement.
+type defSite struct {
+	Val  ast.Expr
+	Stmt ast.Node
+}
+
+func (u *Unit) defSites(obj types.Object) []defSite {
+	var out []defSite
+	root := u.Root()
+	info := u.Info()
+	objOf := func(id *ast.Ident) types.Object {
+		if o := info.Defs[id]; o != nil {
+			return o
+		}
+		return info.Uses[id]
+	}
+	ast.Inspect(root.Body, func(n ast.Node) bool {
+		switch s := n.(type) {
+		case *ast.AssignStmt:
+			for i, l := range s.Lhs {
+				id, ok := l.(*ast.Ident)
+				if !ok || objOf(id) != obj {
+					continue
+				}
+				if len(s.Lhs) == len(s.Rhs) && (s.Tok == token.ASSIGN || s.Tok == token.DEFINE) {
+					out = append(out, defSite{s.Rhs[i], s})
+				} else if len(s.Rhs) == 1 && (s.Tok == token.ASSIGN || s.Tok == token.DEFINE) {
+					out = append(out, defSite{&TupleElem{X: s.Rhs[0], Index: i}, s})
+				} else {
+					out = append(out, defSite{nil, s})
+				}
+			}
+		case *ast.ValueSpec:
+			for i, id := range s.Names {
+				if info.Defs[id] != obj {
+					continue
+				}
+				if len(s.Values) == len(s.Names) {
+					out = append(out, defSite{s.Values[i], s})
+				} else if len(s.Values) == 1 {
+					out = append(out, defSite{&TupleElem{X: s.Values[0], Index: i}, s})
+				} else {
+					out = append(out, defSite{&ZeroValue{}, s})
+				}
+			}
+		case *ast.RangeStmt:
+			for _, l := range []ast.Expr{s.Key, s.Value} {
+				if id, ok := l.(*ast.Ident); ok && objOf(id) == obj {
+					out = append(out, defSite{&RangeElem{X: s.X, IsValue: l == s.Value}, s.X})
+				}
+			}
+		case *ast.IncDecStmt:
+			if id, ok := s.X.(*ast.Ident); ok && info.Uses[id] == obj {
+				out = append(out, defSite{nil, s})
+			}
+		case *ast.UnaryExpr:
+			if s.Op == token.AND {
+				if id, ok := ast.Unparen(s.X).(*ast.Ident); ok && info.Uses[id] == obj {
+					out = append(out, defSite{&AddrTaken{X: s}, s})
+				}
+			}
+		}
+		return true
+	})
+	return out
+}
+
+// within reports whether node n lies in the unit's own body (not in a nested literal).
+func (u *Unit) within(n ast.Node) bool {
+	if n.Pos() < u.Body.Pos() || n.End() > u.Body.End() {
+		return false
+	}
+	for _, k := range u.Kids {
+		if k.Body.Pos() <= n.Pos() && n.End() <= k.Body.End() {
+			return false
+		}
+	}
+	return true
+}
+
+// reachingDef picks, among several definitions, the one that reaches the
+// use `at` on every path (flow-sensitive within the unit's own CFG).
+func (u *Unit) reachingDef(defs []defSite, at ast.Node) (ast.Expr, bool) {
+	if !u.within(at) {
+		return nil, false
+	}
+	g := u.Graph()
+	use := g.LocOf(at)
+	if !use.Valid() {
+		return nil, false
+	}
+	type dl struct {
+		d   defSite
+		loc Loc
+	}
+	var dls []dl
+	for _, d := range defs {
+		if !u.within(d.Stmt) {
+			return nil, false // assigned from another closure: no static order
+		}
+		l := g.LocOf(d.Stmt)
+		if !l.Valid() {
+			return nil, false
+		}
+		// a definition in the same node as the use (e.g. `if x := f(); x != nil`) precedes it when it ends before the use
+		dls = append(dls, dl{d, l})
+	}
+	var dom []dl
+	for _, x := range dls {
+		sameNode := x.loc.B == use.B && x.loc.I == use.I
+		if sameNode && x.d.Stmt.End() <= at.Pos() {
+			dom = append(dom, x)
+		} else if !sameNode && g.Dominates(x.loc, use) {
+			dom = append(dom, x)
+		}
+	}
+	if len(dom) == 0 {
+		return nil, false
+	}
+	last := dom[0]
+	for _, x := range dom[1:] {
+		if g.Dominates(last.loc, x.loc) {
+			last = x
+		}
+	}
+	for _, x := range dls {
+		if x.loc == last.loc && x.d.Stmt == last.d.Stmt {
+			continue
+		}
+		isDom := false
+		for _, y := range dom {
+			if y.d.Stmt == x.d.Stmt {
+				isDom = true
+			}
+		}
+		if isDom {
+			continue
+		}
+		// a non-dominating definition that can execute between last and the use kills the answer
+		if g.CanFollow(last.loc, x.loc) && g.CanFollow(x.loc, use) {
+			return nil, false
+		}
+	}
+	if last.d.Val == nil {
+		return nil, false
+	}
+	return last.d.Val, true
+}
+
+// SingleDef returns the defining expression of a local identifier at its
+// point of use, following chains of locals: the unique definition, or — when
+// the variable is assigned several times — the definition that reaches the
+// use on every path. ok=false when no single definition can be named.
 func (u *Unit) SingleDef(e ast.Expr) (ast.Expr, bool) {
 	info := u.Info()
 	for depth := 0; depth < 8; depth++ {
@@ -319,18 +469,28 @@ func (u *Unit) SingleDef(e ast.Expr) (ast.Expr, bool) {
 		if obj == nil || obj.IsField() || obj.Parent() == obj.Pkg().Scope() {
 			return e, true
 		}
-		defs := u.DefsOf(obj)
+		defs := u.defSites(obj)
 		if len(defs) == 0 {
 			return e, true // parameter / named result
 		}
-		if len(defs) != 1 || defs[0] == nil {
+		var val ast.Expr
+		if len(defs) == 1 {
+			val = defs[0].Val
+		} else {
+			v, ok := u.reachingDef(defs, id)
+			if !ok {
+				return e, false
+			}
+			val = v
+		}
+		if val == nil {
 			return e, false
 		}
-		switch defs[0].(type) {
+		switch val.(type) {
 		case *TupleElem, *RangeElem, *ZeroValue, *AddrTaken:
-			return defs[0], true
+			return val, true
 		}
-		e = defs[0]
+		e = val
 	}
 	return e, true
 }
